@@ -216,6 +216,58 @@ def explore(ctx, depth):
                 ctx.seen({'clause': 'cli ekern2kern', 'file': os.path.relpath(q, d1)}, True)
                 if got != get_kern_from_ekern(exp):
                     ctx.fail({'file': os.path.relpath(q, d1), 'clause': 'CLI ekern2kern'}, 'python -m kernpy --ekern2kern does not write what the API produces', impl=got, expected=get_kern_from_ekern(exp))
+            # a second directory run after an input was replaced by a file with an OLDER time stamp (restored from a backup, cp -p, rsync -t)
+            # while its output from the first run is still there: the output must be the conversion of what the input holds now
+            if len(jobs) >= 2:
+                import time
+                d2 = os.path.join(tmp, 'cli2', 'sub')
+                os.makedirs(d2)
+                (ta, ea), (tb, eb) = jobs[0], jobs[1]
+                pa, pb = os.path.join(d2, 'a.krn'), os.path.join(d2, 'b.kern')
+                for pth, txt in ((pa, ta), (pb, tb)):
+                    with open(pth, 'w', encoding='utf-8', newline='') as f:
+                        f.write(txt)
+                cmd = [sys.executable, '-m', 'kernpy', '--kern2ekern', '--input_path', os.path.join(tmp, 'cli2'), '-r']
+                subprocess.run(cmd, env=env, cwd=tmp, stdout=subprocess.PIPE, stderr=subprocess.PIPE, text=True, timeout=600)
+                with open(pa, 'w', encoding='utf-8', newline='') as f:
+                    f.write(tb)
+                old_t = time.time() - 86400
+                os.utime(pa, (old_t, old_t))
+                subprocess.run(cmd, env=env, cwd=tmp, stdout=subprocess.PIPE, stderr=subprocess.PIPE, text=True, timeout=600)
+                oa = os.path.join(d2, 'a.ekrn')
+                got = open(oa, newline='').read() if os.path.exists(oa) else None
+                ctx.seen({'clause': 'cli directory, second run after an input was replaced by an older-dated file'}, True)
+                if got != eb:
+                    ctx.fail({'clause': 'CLI directory, second run', 'text_first_run': ta, 'text_second_run': tb},
+                             'a second directory run does not convert an input that was replaced (with an older time stamp) since the first run', impl=got, expected=eb)
+        # a single field longer than 128 KiB (a huge global comment): the string reader and the file reader agree, whatever the order of the calls
+        long_text = '!!!ONB: ' + 'x' * 140000 + '\n**kern\n4c\n*-\n'
+        lp = os.path.join(tmp, 'longfield.krn')
+        with open(lp, 'w', encoding='utf-8', newline='') as f:
+            f.write(long_text)
+        def outcome(fn):
+            r = call(fn)
+            return 'ok' if 'ok' in r else r
+        seq = [outcome(lambda: kp.dumps(kp.loads(long_text)[0])), outcome(lambda: kp.dumps(kp.load(lp)[0])), outcome(lambda: kp.dumps(kp.loads(long_text)[0]))]
+        # the same three calls in a process of their own (this process has already read files, so state that a file read leaves behind in the
+        # library or in the csv module would be invisible here)
+        script = ("import sys, kernpy as kp\n"
+                  "t = open(sys.argv[1], encoding='utf-8', newline='').read()\n"
+                  "def o(f):\n"
+                  "    try:\n        f(); return 'ok'\n    except Exception as e:\n        return type(e).__name__\n"
+                  "print(o(lambda: kp.dumps(kp.loads(t)[0])), o(lambda: kp.dumps(kp.load(sys.argv[1])[0])), o(lambda: kp.dumps(kp.loads(t)[0])))\n")
+        pr = subprocess.run([sys.executable, '-c', script, lp], env=env, cwd=tmp, stdout=subprocess.PIPE, stderr=subprocess.PIPE, text=True, timeout=300)
+        sub_seq = pr.stdout.split()
+        ctx.seen({'clause': 'load = loads (one field longer than 128 KiB), fresh process'}, True)
+        if len(sub_seq) != 3 or not (sub_seq[0] == sub_seq[1] == sub_seq[2]):
+            ctx.fail({'clause': 'load = loads (one field longer than 128 KiB), fresh process', 'field_length': 140000},
+                     'in a fresh process loads(text), load(file), loads(text) of a text with a very long field do not have the same outcome',
+                     impl=sub_seq or pr.stderr[-300:], expected='three equal outcomes')
+        ctx.seen({'clause': 'load = loads (one field longer than 128 KiB), loads before and after load'}, True)
+        if not (seq[0] == seq[1] == seq[2]):
+            ctx.fail({'clause': 'load = loads (one field longer than 128 KiB)', 'field_length': 140000},
+                     'loading a text with a very long field and loading the file that holds it do not have the same outcome (or the outcome depends on the order of the calls)',
+                     impl=seq, expected=[seq[0]] * 3)
     finally:
         shutil.rmtree(tmp, ignore_errors=True)
 
